@@ -224,8 +224,11 @@ static void parse_args(int argc, char **argv) {
       continue;
     }
 
+    // Like -l and -Wl, a word passed by -Xlinker keeps its position
+    // among the inputs: it may be a positional option of the linker.
     if (!strcmp(argv[i], "-Xlinker")) {
-      strarray_push(&ld_extra_args, argv[++i]);
+      strarray_push(&input_paths, argv[i]);
+      strarray_push(&input_paths, argv[++i]);
       continue;
     }
 
@@ -773,6 +776,11 @@ int main(int argc, char **argv) {
 
     if (!strncmp(input, "-l", 2)) {
       strarray_push(&ld_args, input);
+      continue;
+    }
+
+    if (!strcmp(input, "-Xlinker")) {
+      strarray_push(&ld_args, input_paths.data[++i]);
       continue;
     }
 
